@@ -1289,6 +1289,108 @@ theorem rescan_eq_self {s : Disk} (h : DInv s) (hlive : s.live = none)
       simp only [this, if_true]
       cases s; simp_all
 
+/-! ### replication-id switch -/
+
+theorem DInv.closeReadersAll {s : Disk} (h : DInv s) : DInv { s with readers := closeAllReaders s.readers } := by
+  constructor
+  · exact h.contig
+  · exact h.nonempty
+  · exact h.embed
+  · exact h.lastEnd
+  · exact h.rdbAlign
+  · exact h.rdbShape
+  · show ((closeAllReaders s.readers).map (·.id)).Nodup
+    unfold closeAllReaders
+    rw [map_ids_of_id_pres _ _ close_id]; exact h.ids
+  · intro r hr
+    have hr' : r ∈ closeAllReaders s.readers := hr
+    simp only [closeAllReaders] at hr'
+    obtain ⟨y, _, rfl⟩ := List.mem_map.mp hr'
+    exact ROk_of_closed (close_isOpen y)
+
+theorem dropWritingRdb_fields (s : Disk) :
+    s.dropWritingRdb.hbase = s.hbase ∧ s.dropWritingRdb.hist = s.hist ∧
+    s.dropWritingRdb.readers = s.readers ∧ s.dropWritingRdb.segs = s.segs ∧ s.dropWritingRdb.live = s.live ∧
+    (∀ r, s.dropWritingRdb.rdb = some r → r.writing = false) := by
+  unfold Disk.dropWritingRdb
+  cases hr : s.rdb with
+  | none => simp [hr]
+  | some r =>
+    simp only []
+    by_cases hw : r.writing = true
+    · simp [hw]
+    · have hw' : r.writing = false := by simpa using hw
+      simp [hw', hr]
+
+theorem closeAllForSwitch_hist (s : Disk) :
+    s.closeAllForSwitch.hbase = s.hbase ∧ s.closeAllForSwitch.hist = s.hist := by
+  unfold Disk.closeAllForSwitch
+  obtain ⟨c1, c2, _⟩ := closeLive_hist ({ s with readers := closeAllReaders s.readers } : Disk).dropWritingRdb
+  obtain ⟨d1, d2, _⟩ := dropWritingRdb_fields ({ s with readers := closeAllReaders s.readers } : Disk)
+  exact ⟨by rw [c1, d1], by rw [c2, d2]⟩
+
+theorem rescan_hist (s : Disk) : s.rescan.hbase = s.hbase ∧ s.rescan.hist = s.hist ∧ s.rescan.readers = s.readers := by
+  simp only [Disk.rescan, truncateGap]
+  repeat' split
+  all_goals simp
+
+theorem DInv.dropWritingRdb {s : Disk} (h : DInv s) (hro : ∀ r ∈ s.readers, r.isOpen = false) :
+    DInv s.dropWritingRdb := by
+  unfold Disk.dropWritingRdb
+  cases hr : s.rdb with
+  | none => simpa using h
+  | some r =>
+    simp only []
+    by_cases hw : r.writing = true
+    · simp only [hw, if_true]
+      constructor
+      · exact h.contig
+      · exact h.nonempty
+      · exact h.embed
+      · exact h.lastEnd
+      · intro r' l hr'; simp at hr'
+      · intro r' hr'; simp at hr'
+      · exact h.ids
+      · intro x hx; exact ROk_of_closed (hro x hx)
+    · simp only [hw]; exact h
+
+theorem closeLive_readers_closed (s : Disk) (h : ∀ r ∈ s.readers, r.isOpen = false) :
+    ∀ r ∈ s.closeLive.readers, r.isOpen = false := by
+  intro r hr
+  unfold Disk.closeLive at hr
+  split at hr
+  · exact h r hr
+  · split at hr
+    · simp only [closeReadersOn] at hr
+      obtain ⟨y, hy, rfl⟩ := List.mem_map.mp hr
+      split
+      · rfl
+      · exact h y hy
+    · exact h r hr
+
+theorem closeAllForSwitch_spec {s : Disk} (h : DInv s) :
+    DInv s.closeAllForSwitch ∧ s.closeAllForSwitch.live = none ∧
+      (∀ r, s.closeAllForSwitch.rdb = some r → r.writing = false) ∧
+      s.closeAllForSwitch.hbase = s.hbase ∧ s.closeAllForSwitch.hist = s.hist ∧
+      (∀ r ∈ s.closeAllForSwitch.readers, r.isOpen = false) := by
+  unfold Disk.closeAllForSwitch
+  generalize hs0 : ({ s with readers := closeAllReaders s.readers } : Disk) = s0
+  have h0 : DInv s0 := hs0 ▸ h.closeReadersAll
+  have hro : ∀ r ∈ s0.readers, r.isOpen = false := by
+    rw [← hs0]
+    intro r hr
+    have hr' : r ∈ closeAllReaders s.readers := hr
+    simp only [closeAllReaders] at hr'
+    obtain ⟨y, _, rfl⟩ := List.mem_map.mp hr'
+    rfl
+  have hb : s0.hbase = s.hbase ∧ s0.hist = s.hist := by rw [← hs0]; exact ⟨rfl, rfl⟩
+  obtain ⟨d1, d2, d3, _, _, d6⟩ := dropWritingRdb_fields s0
+  have h1 := h0.dropWritingRdb hro
+  obtain ⟨c1, c2, c3⟩ := closeLive_hist s0.dropWritingRdb
+  refine ⟨h1.closeLive, closeLive_live _, ?_, by rw [c1, d1, hb.1], by rw [c2, d2, hb.2], ?_⟩
+  · intro r hr; exact d6 r (c3 ▸ hr)
+  · exact closeLive_readers_closed _ (by rw [d3]; exact hro)
+
 /-! ### every step keeps the invariant -/
 
 theorem DInv.step {s : Disk} (h : DInv s) (op : DOp) (hok : s.okOp op) : DInv (s.step op).1 := by
@@ -1297,10 +1399,11 @@ theorem DInv.step {s : Disk} (h : DInv s) (op : DOp) (hok : s.okOp op) : DInv (s
     simp only [Disk.step]
     split
     · exact h.reset.with_runId id
-    · rename_i hne
-      obtain ⟨_, hl, hr⟩ := hok hne
-      rw [rescan_eq_self h hl (fun r hr' => by rw [hr'] at hr; exact hr)]
-      exact h.with_runId id
+    · split
+      · exact h
+      · obtain ⟨hd, hl, hr, _, _, _⟩ := closeAllForSwitch_spec h
+        rw [rescan_eq_self hd hl hr]
+        exact hd.with_runId id
   | delRunId =>
     simp only [Disk.step]
     split
@@ -1363,8 +1466,12 @@ theorem hist_step (s : Disk) (op : DOp) :
     simp only [Disk.step]
     split
     · right; right; rfl
-    · left; simp only [Disk.rescan, truncateGap]; repeat' split
-      all_goals simp
+    · split
+      · left; simp
+      · left
+        obtain ⟨r1, r2, _⟩ := rescan_hist s.closeAllForSwitch
+        obtain ⟨c1, c2⟩ := closeAllForSwitch_hist s
+        exact ⟨by show s.closeAllForSwitch.rescan.hbase = _; rw [r1, c1], by show s.closeAllForSwitch.rescan.hist = _; rw [r2, c2]⟩
   | delRunId => simp only [Disk.step]; split; (left; simp); (right; right; rfl)
   | newRdbWriter off size => right; right; rfl
   | rdbAppend chunk => left; simp only [Disk.step]; repeat' split
@@ -1539,8 +1646,26 @@ theorem closed_reader_frozen {s : Disk} (h : DInv s) (op : DOp) {r : DReader} (h
     simp only [Disk.step]
     split
     · exact mem_map_close (fun x => Or.inr rfl) hr hc
-    · exact same _ (by simp [Disk.rescan, truncateGap]; repeat' split
-                       all_goals rfl)
+    · split
+      · exact same _ rfl
+      · -- id switch: every reader is closed, then (possibly) once more with the trimmed segment
+        have h1 := mem_map_close (f := DReader.close) (fun x => Or.inr rfl) hr hc
+        obtain ⟨r1, hr1, hid1, hc1, hout1⟩ := h1
+        have hs0 : r1 ∈ (({ s with readers := closeAllReaders s.readers } : Disk).dropWritingRdb).readers := by
+          rw [(dropWritingRdb_fields _).2.2.1]; exact hr1
+        have h2 : ∃ r2 ∈ s.closeAllForSwitch.readers, r2.id = r1.id ∧ r2.isOpen = false ∧ r2.out = r1.out := by
+          unfold Disk.closeAllForSwitch Disk.closeLive
+          split
+          · exact ⟨r1, hs0, rfl, hc1, rfl⟩
+          · rename_i g _
+            split
+            · exact mem_map_close (f := fun x => if x.holds g.left then x.close else x)
+                (fun x => by by_cases hx : x.holds g.left = true <;> simp [hx]) hs0 hc1
+            · exact ⟨r1, hs0, rfl, hc1, rfl⟩
+        obtain ⟨r2, hr2, hid2, hc2, hout2⟩ := h2
+        refine ⟨r2, ?_, by rw [hid2, hid1], hc2, by rw [hout2, hout1]⟩
+        show r2 ∈ s.closeAllForSwitch.rescan.readers
+        rw [(rescan_hist _).2.2]; exact hr2
   | delRunId =>
     simp only [Disk.step]
     split
@@ -1780,5 +1905,137 @@ theorem abs_bytes_eq {s : Disk} (h : DInv s) (hne : s.all ≠ []) :
     refine ⟨by rw [hb, ← hgl]; exact (h.embed g hg).1, ?_⟩
     rw [hb]
     exact flatMap_eq_hist_drop s.hbase s.hist s.all hne h.contig h.embed hlr f hfl
+
+/-! ### which operations may close a reader -/
+
+/-- the operations that close readers: the property's invalidation events
+    (reset by a new snapshot or an id delete, replication-id switch, writer
+    replacement), the end of a writer (a snapshot writer ending early takes its
+    readers with it; a stream writer closing on an EMPTY live segment takes the
+    readers tailing that segment), and the reader's own close -/
+def closesReaders : DOp → Bool
+  | .setRunId _ | .delRunId | .newRdbWriter _ _ | .rdbClose | .newAofWriter _ | .aofClose
+  | .closeReader _ => true
+  | _ => false
+
+theorem mem_setReader_same {rs : List DReader} {r0 r1 : DReader} (h0 : r0 ∈ rs) (hid : r1.id = r0.id) :
+    r1 ∈ setReader rs r1 := by
+  unfold setReader
+  exact List.mem_map.mpr ⟨r0, h0, by simp [hid]⟩
+
+theorem reader_stays_open {s : Disk} (h : DInv s) (op : DOp) {r : DReader} (hr : r ∈ s.readers)
+    (ho : r.isOpen = true) (hop : closesReaders op = false) :
+    ∃ r' ∈ (s.step op).1.readers, r'.id = r.id ∧ r'.isOpen = true := by
+  have same : ∀ s' : Disk, s'.readers = s.readers → ∃ r' ∈ s'.readers, r'.id = r.id ∧ r'.isOpen = true :=
+    fun s' e => ⟨r, e ▸ hr, rfl, ho⟩
+  have viaSet : ∀ (r0 r1 : DReader), r0 ∈ s.readers → r1.id = r0.id → (r0.isOpen = true → r1.isOpen = true) →
+      ∃ r' ∈ setReader s.readers r1, r'.id = r.id ∧ r'.isOpen = true := by
+    intro r0 r1 h0 hid hpres
+    by_cases e : r.id = r0.id
+    · have : r = r0 := eq_of_mem_of_id h.ids hr h0 e
+      subst this
+      exact ⟨r1, mem_setReader_same hr hid, hid, hpres ho⟩
+    · exact ⟨r, mem_setReader_other hr (by rw [hid]; exact e), rfl, ho⟩
+  cases op with
+  | setRunId id => simp [closesReaders] at hop
+  | delRunId => simp [closesReaders] at hop
+  | newRdbWriter off size => simp [closesReaders] at hop
+  | rdbClose => simp [closesReaders] at hop
+  | newAofWriter off => simp [closesReaders] at hop
+  | aofClose => simp [closesReaders] at hop
+  | closeReader rid => simp [closesReaders] at hop
+  | rdbAppend chunk =>
+    apply same; simp only [Disk.step]; repeat' split
+    all_goals rfl
+  | aofAppend chunk =>
+    apply same
+    simp only [Disk.step]
+    have := appendLive_readers s chunk
+    cases hp : s.appendLive chunk with
+    | mk s' ok =>
+      rw [hp] at this
+      cases ok
+      · simp
+      · simpa using this
+  | gc =>
+    apply same; simp only [Disk.step, Disk.gc]; repeat' split
+    all_goals rfl
+  | openReader rid off crcOk =>
+    simp only [Disk.step, Disk.open]
+    repeat' split
+    all_goals first
+      | exact same _ rfl
+      | exact ⟨r, by simp; left; exact hr, rfl, ho⟩
+  | read rid n =>
+    simp only [Disk.step, Disk.read]
+    cases hf : findReader s.readers rid with
+    | none => exact same _ rfl
+    | some r0 =>
+      obtain ⟨h0, _⟩ := findReader_some hf
+      simp only []
+      repeat' split
+      all_goals first
+        | exact same _ rfl
+        | exact viaSet r0 _ h0 rfl (fun h' => h')
+  | advAcquire rid =>
+    simp only [Disk.step, Disk.advAcquire]
+    cases hf : findReader s.readers rid with
+    | none => exact same _ rfl
+    | some r0 =>
+      obtain ⟨h0, _⟩ := findReader_some hf
+      simp only []
+      split
+      · exact viaSet r0 _ h0 rfl (fun h' => h')
+      · exact same _ rfl
+  | advRelease rid =>
+    simp only [Disk.step, Disk.advRelease]
+    cases hf : findReader s.readers rid with
+    | none => exact same _ rfl
+    | some r0 =>
+      obtain ⟨h0, _⟩ := findReader_some hf
+      simp only []
+      split
+      · exact viaSet r0 _ h0 rfl (fun h' => h')
+      · exact same _ rfl
+
+/-! ### the snapshot → stream junction, the collector's snapshot branch -/
+
+theorem snapshot_hands_over {s : Disk} (h : DInv s) (r : DRdb) (hr : s.rdb = some r) (hne : s.all ≠ []) :
+    (indexAof s.all r.left).isSome = true := by
+  cases hfl : firstLeft s.all with
+  | none =>
+    cases hall : s.all with
+    | nil => exact absurd hall hne
+    | cons a t => rw [hall] at hfl; simp [firstLeft] at hfl
+  | some f =>
+    have hal := h.rdbAlign r f hr hfl
+    cases hall : s.all with
+    | nil => exact absurd hall hne
+    | cons a t =>
+      rw [hall] at hfl; simp [firstLeft] at hfl
+      -- the first segment covers its own left end
+      unfold indexAof
+      rw [Option.isSome_iff_exists]
+      have hm : a ∈ (a :: t).reverse := by simp
+      have hp : (fun g : DSeg => decide (g.left ≤ r.left) && decide (r.left ≤ g.right)) a = true := by
+        have : r.left = a.left := by rw [hal]; exact hfl.symm
+        simp [DSeg.right, this]
+      cases hfd : (a :: t).reverse.find? (fun g => decide (g.left ≤ r.left) && decide (r.left ≤ g.right)) with
+      | some x => exact ⟨x, rfl⟩
+      | none => exact absurd hp (by simpa using List.find?_eq_none.mp hfd a hm)
+
+theorem gc_snapshot_branch (s : Disk) (r : DRdb) (hr : s.rdb = some r) (hg : s.gc.rdb = none) :
+    rdbRef s.readers r = 0 := by
+  unfold Disk.gc at hg
+  split at hg
+  · rw [hr] at hg; cases hg
+  · generalize gcScanRev s.maxSize s.all.reverse 0 = ks at hg
+    obtain ⟨k, size⟩ := ks
+    simp only [hr] at hg
+    split at hg
+    · split at hg
+      · assumption
+      · rw [hr] at hg; cases hg
+    · simp at hg
 
 end GunYu.Store
